@@ -86,6 +86,7 @@ type VM struct {
 	Extra     map[string]interface{} // per-check hooks (stubs, callee replacement)
 	hasAbort  bool
 	// environment of the CLI stubs (per path)
+	hazardSeen     bool
 	onceSyms       map[string]*Value
 	stdout, stderr []Value
 	stdin          Value
